@@ -61,6 +61,30 @@ def abs_tol(op, da):
     return 0.0
 
 
+def basin_tie(da, smooth=False):
+    """True when, at some position, two watershed basins have (near-)equal Hs: the rank of the two, and with it which of
+    them survives the `swells`/`parts` truncation, is then decided by the scan order and the property leaves it open."""
+    from wavespectra.core import npstats
+    from wavespectra.partition.partition import np_ptm3
+
+    lead = [d for d in da.dims if d not in ("freq", "dir")]
+    x = da.transpose(*lead, "freq", "dir").sortby("dir")
+    if smooth:
+        xs = x.spec.smooth(3, 3).transpose(*lead, "freq", "dir")
+    else:
+        xs = x
+    f, d = x.freq.values, x.dir.values
+    E = np.asarray(x.values, dtype=float).reshape((-1, len(f), len(d)))
+    Es = np.asarray(xs.values, dtype=float).reshape((-1, len(f), len(d)))
+    for S, Ss in zip(E, Es):
+        parts = np_ptm3(S, Ss, f, d, parts=None)
+        hs = sorted(float(npstats.hs(np.asarray(q, dtype=float), f, d)) for q in parts)
+        hs = [h for h in hs if h > 0]
+        if any(b - a <= 2e-6 * max(b, 1e-300) for a, b in zip(hs, hs[1:])):
+            return True
+    return False
+
+
 def make_case(args):
     seed, icase = args
     rng = case_rng("C05", seed, icase)
@@ -122,6 +146,8 @@ def make_case(args):
                 if f32 and op in opcat.WATERSHED:
                     rel = 1e-5
                 rec["diff"] = opcat.compare(got, ref, rel=rel, abs_=atol, coord_rel=1e-6 if f32 else 1e-12)
+                if rec["diff"] and op in opcat.WATERSHED and (tag.startswith("roll") or tag == "reversed") and basin_tie(da, op == "ptm1_smooth"):
+                    rec["ambiguous"] = "two basins of equal Hs: their rank (and which one is kept) depends on the scan order"
             except Exception as e:
                 rec["crash"] = f"{type(e).__name__}: {str(e)[:200]}"
             out.append(rec)
